@@ -106,7 +106,13 @@ Record Inv0 (B U : cstate) : Prop := {
   i_inj : forall h h' f m m', nlookup h (mems B) = Some (f, m) -> nlookup h' (mems B) = Some (f, m') -> h = h';
   i_h : forall h f m, nlookup h (mems B) = Some (f, m) -> hinv B U f m;
   i_free : forall f, (forall h m, nlookup h (mems B) <> Some (f, m)) -> nlookup f (files B) = nlookup f (files U);
-  i_reg : forall f e, nlookup f (buf B) = Some e -> exists h m, In h (reg B) /\ nlookup h (mems B) = Some (f, m)
+  i_reg : forall f e, nlookup f (buf B) = Some e -> exists h m, In h (reg B) /\ nlookup h (mems B) = Some (f, m);
+  (* every directory exists, no OSError was raised, and a buffered file has not changed on disk since it was buffered *)
+  i_nwB : nowrite (dk B) = [];
+  i_nwU : nowrite (dk U) = [];
+  i_oB : oerr_of B = false;
+  i_oU : oerr_of U = false;
+  i_meta : forall f e, nlookup f (buf B) = Some e -> b_meta e = nlookup f (vers (dk B))
 }.
 
 Definition Inv (B U : cstate) : Prop :=
@@ -145,17 +151,25 @@ Section Sim.
     intros B h [H|(f & m & H1 & H2)]; unfold Doc.flush_one; [rewrite H|rewrite H1, H2]; reflexivity.
   Qed.
 
+  Lemma ometa_eqb_refl : forall a, ometa_eqb a a = true.
+  Proof. intros [x|]; simpl; [apply N.eqb_refl|reflexivity]. Qed.
+
   Lemma flush_one_spec : forall B h f m e,
     nlookup h (mems B) = Some (f, m) -> nlookup f (buf B) = Some e -> b_contents e = m ->
+    b_meta e = nlookup f (vers (dk B)) -> nowrite (dk B) = [] ->
     let B' := flush_one B h in
     (forall x, nlookup x (mems B') = nlookup x (mems B)) /\
     buf B' = nremove f (buf B) /\
     files B' = (if json_eqb m (b_hash e) then files B else nset f m (files B)) /\
-    reg B' = reg B /\ depth B' = depth B /\ cap B' = cap B /\ caps B' = caps B.
+    reg B' = reg B /\ depth B' = depth B /\ cap B' = cap B /\ caps B' = caps B /\
+    nowrite (dk B') = [] /\ ferr_of B' = ferr_of B /\ oerr_of B' = oerr_of B /\
+    (forall f0, f0 <> f -> nlookup f0 (vers (dk B')) = nlookup f0 (vers (dk B))).
   Proof.
-    intros B h f m e Hm He Hc. cbv zeta. unfold Doc.flush_one. rewrite Hm, He, Hc, merge_same.
-    destruct (json_eqb m (b_hash e)); simpl; repeat split; auto.
-    intro x. apply nset_lookup_id. exact Hm.
+    intros B h f m e Hm He Hc Hme Hnw. cbv zeta. unfold Doc.flush_one. rewrite Hm, He, Hc, merge_same.
+    destruct (json_eqb m (b_hash e)); [simpl; repeat split; auto|].
+    rewrite Hme, ometa_eqb_refl, Hnw. simpl. repeat split; auto.
+    - intro x. apply nset_lookup_id. exact Hm.
+    - intros f0 Hne. apply nlookup_nset_other. auto.
   Qed.
 
   Lemma is_obj_not_null : forall m, is_obj m -> m <> JNull.
@@ -168,7 +182,7 @@ Section Sim.
     destruct (nlookup f (buf B)) as [e|] eqn:He; [|rewrite flush_one_noop; eauto].
     pose proof (i_h B U I h f m Hm) as Hh. unfold hinv in Hh. rewrite He in Hh.
     destruct Hh as (Hobj & Hc & H0 & Hcd).
-    destruct (flush_one_spec B h f m e Hm He Hc) as (Sm & Sb & Sf & Sr & Sd & _).
+    destruct (flush_one_spec B h f m e Hm He Hc (i_meta B U I f e He) (i_nwB B U I)) as (Sm & Sb & Sf & Sr & Sd & _ & _ & Snw & _ & So & Sv).
     set (B' := flush_one B h) in *.
     constructor.
     - apply (i_depthU B U I).
@@ -208,7 +222,26 @@ Section Sim.
       destruct (N.eq_dec f f0) as [->|Hne]; [rewrite nlookup_nremove_same in H; discriminate|].
       rewrite nlookup_nremove_other in H by exact Hne.
       destruct (i_reg B U I f0 e0 H) as (x & mx & Hin & Hx). exists x, mx. rewrite Sm. auto.
+    - exact Snw.
+    - apply (i_nwU B U I).
+    - rewrite So. apply (i_oB B U I).
+    - apply (i_oU B U I).
+    - intros f0 e0 H. rewrite Sb in H.
+      destruct (N.eq_dec f f0) as [->|Hne]; [rewrite nlookup_nremove_same in H; discriminate|].
+      rewrite nlookup_nremove_other in H by exact Hne. rewrite Sv by auto. apply (i_meta B U I f0 e0 H).
   Qed.
+
+  Lemma flush_one_ferr : forall B U h, Inv0 B U -> ferr_of (flush_one B h) = ferr_of B.
+  Proof.
+    intros B U h I.
+    destruct (nlookup h (mems B)) as [[f m]|] eqn:Hm; [|rewrite flush_one_noop; auto].
+    destruct (nlookup f (buf B)) as [e|] eqn:He; [|rewrite flush_one_noop; eauto].
+    pose proof (i_h B U I h f m Hm) as Hh. unfold hinv in Hh. rewrite He in Hh.
+    destruct Hh as (_ & Hc & _).
+    destruct (flush_one_spec B h f m e Hm He Hc (i_meta B U I f e He) (i_nwB B U I)) as (_ & _ & _ & _ & _ & _ & _ & _ & Sf & _).
+    exact Sf.
+  Qed.
+
 
   (* flush_one never creates an entry, and removes the one of its own file *)
   Lemma flush_one_buf : forall B h f0 e0,
@@ -217,11 +250,13 @@ Section Sim.
     intros B h f0 e0 H. unfold Doc.flush_one in H.
     destruct (nlookup h (mems B)) as [[f m]|]; [|exact H].
     destruct (nlookup f (buf B)) as [e|] eqn:He; [|exact H].
-    destruct (json_eqb m (b_hash e)); simpl in H.
-    - destruct (N.eq_dec f f0) as [->|Hne]; [rewrite nlookup_nremove_same in H; discriminate|].
-      rewrite nlookup_nremove_other in H by exact Hne. exact H.
-    - destruct (N.eq_dec f f0) as [->|Hne]; [rewrite nlookup_nremove_same in H; discriminate|].
-      rewrite nlookup_nremove_other in H by exact Hne. exact H.
+    assert (G : forall st1, buf st1 = buf B -> nlookup f0 (buf (with_buf st1 (nremove f (buf st1)))) = Some e0 -> nlookup f0 (buf B) = Some e0).
+    { intros st1 E H1. simpl in H1. rewrite E in H1.
+      destruct (N.eq_dec f f0) as [->|Hne]; [rewrite nlookup_nremove_same in H1; discriminate|].
+      rewrite nlookup_nremove_other in H1 by exact Hne. exact H1. }
+    destruct (json_eqb m (b_hash e)); [eapply G; [|exact H]; reflexivity|].
+    destruct (negb (ometa_eqb (b_meta e) (nlookup f (vers (dk B))))); [eapply G; [|exact H]; reflexivity|].
+    destruct (nmem f (nowrite (dk B))); (eapply G; [|exact H]; reflexivity).
   Qed.
 
   Lemma flush_one_own : forall B h f m,
@@ -229,7 +264,7 @@ Section Sim.
   Proof.
     intros B h f m Hm. unfold Doc.flush_one. rewrite Hm.
     destruct (nlookup f (buf B)) as [e|] eqn:He; [|exact He].
-    destruct (json_eqb m (b_hash e)); simpl; apply nlookup_nremove_same.
+    simpl. apply nlookup_nremove_same.
   Qed.
 
   Lemma flush_fold_inv : forall l B U, Inv0 B U -> Inv0 (fold_left flush_one l B) U.
@@ -267,33 +302,56 @@ Section Sim.
     intros f e H. rewrite Hn in H. discriminate.
   Qed.
 
-  Lemma flush_all_inv : forall B U, Inv0 B U -> Inv0 (flush_all B) U /\ forall f, nlookup f (buf (flush_all B)) = None.
+  Lemma with_ferr_inv : forall B U b, Inv0 B U -> Inv0 (with_ferr B b) U.
+  Proof. intros B U b I. constructor; simpl; apply I. Qed.
+  Lemma with_ferr_inv_U : forall B U b, Inv0 B U -> Inv0 B (with_ferr U b).
+  Proof. intros B U b I. constructor; simpl; apply I. Qed.
+  Lemma with_oerr_false_inv : forall B U, Inv0 B U -> Inv0 (with_oerr B false) (with_oerr U false).
+  Proof. intros B U I. constructor; simpl; try apply I; reflexivity. Qed.
+
+  Lemma flush_fold_ferr : forall l B U, Inv0 B U -> ferr_of (fold_left flush_one l B) = ferr_of B.
   Proof.
-    intros B U I. unfold Doc.flush_all.
+    induction l as [|h l IH]; intros B U I; simpl; [reflexivity|].
+    rewrite (IH _ U (flush_one_inv B U h I)). apply (flush_one_ferr B U h I).
+  Qed.
+
+  Lemma flush_all_inv : forall B0 U, Inv0 B0 U ->
+    Inv0 (flush_all B0) U /\ (forall f, nlookup f (buf (flush_all B0)) = None) /\ ferr_of (flush_all B0) = false.
+  Proof.
+    intros B0 U I0. unfold Doc.flush_all.
+    pose proof (with_ferr_inv B0 U false I0) as I. set (B := with_ferr B0 false) in *.
+    change (reg B0) with (reg B).
     assert (Hn : forall f, nlookup f (buf (fold_left flush_one (rev (reg B)) B)) = None).
     { intro f. destruct (nlookup f (buf (fold_left flush_one (rev (reg B)) B))) as [e|] eqn:E; [|reflexivity].
       pose proof (flush_fold_buf _ _ _ _ E) as E0.
       destruct (i_reg B U I f e E0) as (h & m & Hin & Hm).
       rewrite (flush_fold_clears (rev (reg B)) B U h f m I) in E; [discriminate| |exact Hm].
       apply in_rev. rewrite rev_involutive. exact Hin. }
-    split; [apply with_reg_inv; [apply flush_fold_inv; exact I|exact Hn]|exact Hn].
+    split; [apply with_reg_inv; [apply flush_fold_inv; exact I|exact Hn]|]. split; [exact Hn|].
+    change (ferr_of (with_reg (fold_left flush_one (rev (reg B)) B) [])) with (ferr_of (fold_left flush_one (rev (reg B)) B)).
+    rewrite (flush_fold_ferr _ B U I). reflexivity.
   Qed.
 
   (* ---- bookkeeping steps ---- *)
   Lemma flush_one_depth : forall B h, depth (flush_one B h) = depth B.
   Proof.
     intros B h. unfold Doc.flush_one. destruct (nlookup h (mems B)) as [[f m]|]; [|reflexivity].
-    destruct (nlookup f (buf B)) as [e|]; [|reflexivity]. destruct (json_eqb m (b_hash e)); reflexivity.
+    destruct (nlookup f (buf B)) as [e|]; [|reflexivity]. destruct (json_eqb m (b_hash e)); [reflexivity|].
+    destruct (negb (ometa_eqb (b_meta e) (nlookup f (vers (dk B))))); [reflexivity|].
+    destruct (nmem f (nowrite (dk B))); reflexivity.
   Qed.
 
   Lemma flush_fold_depth : forall l B, depth (fold_left flush_one l B) = depth B.
   Proof. induction l as [|h l IH]; intro B; simpl; [reflexivity|]. rewrite IH. apply flush_one_depth. Qed.
 
   Lemma flush_all_depth : forall B, depth (flush_all B) = depth B.
-  Proof. intro B. unfold Doc.flush_all. simpl. apply flush_fold_depth. Qed.
+  Proof. intro B. unfold Doc.flush_all. simpl. rewrite flush_fold_depth. reflexivity. Qed.
 
   Lemma flush_all_mems : forall B U x, Inv0 B U -> nlookup x (mems (flush_all B)) = nlookup x (mems B).
-  Proof. intros B U x I. unfold Doc.flush_all. simpl. apply (flush_fold_mems _ B U x I). Qed.
+  Proof.
+    intros B U x I. unfold Doc.flush_all. simpl.
+    rewrite (flush_fold_mems _ (with_ferr B false) U x (with_ferr_inv B U false I)). reflexivity.
+  Qed.
 
   Lemma register_inv : forall B U h, Inv0 B U -> Inv0 (register B h) U.
   Proof.
@@ -305,12 +363,12 @@ Section Sim.
   Lemma check_capacity_inv : forall B U, Inv0 B U ->
     Inv0 (check_capacity B) U /\ depth (check_capacity B) = depth B /\
     (forall x, nlookup x (mems (check_capacity B)) = nlookup x (mems B)) /\
-    ((forall f, nlookup f (buf B) = None) -> forall f, nlookup f (buf (check_capacity B)) = None).
+    ferr_of (check_capacity B) = false.
   Proof.
     intros B U I. unfold Doc.check_capacity. destruct (cap B <? bsize frepr B)%N.
-    - destruct (flush_all_inv B U I) as [I' Hn].
-      split; [exact I'|]. split; [apply flush_all_depth|]. split; [intro x; apply (flush_all_mems B U x I)|auto].
-    - split; [exact I|]. split; [reflexivity|]. split; auto.
+    - destruct (flush_all_inv B U I) as (I' & Hn & Hf).
+      split; [exact I'|]. split; [apply flush_all_depth|]. split; [intro x; apply (flush_all_mems B U x I)|exact Hf].
+    - split; [apply with_ferr_inv; exact I|]. split; [reflexivity|]. split; [reflexivity|reflexivity].
   Qed.
 
   Lemma with_cap_inv : forall B U c, Inv0 B U -> Inv0 (with_cap B c) U.
@@ -322,12 +380,13 @@ Section Sim.
 
   Lemma set_capacity_inv : forall B U c, Inv0 B U ->
     Inv0 (set_capacity B c) U /\ depth (set_capacity B c) = depth B /\
-    ((forall f, nlookup f (buf B) = None) -> forall f, nlookup f (buf (set_capacity B c)) = None).
+    ((forall f, nlookup f (buf B) = None) -> forall f, nlookup f (buf (set_capacity B c)) = None) /\
+    ferr_of (set_capacity B c) = false.
   Proof.
     intros B U c I. unfold Doc.set_capacity. destruct (c <? bsize frepr (with_cap B c))%N.
-    - destruct (flush_all_inv (with_cap B c) U (with_cap_inv B U c I)) as [I' Hn].
-      split; [exact I'|]. split; [rewrite flush_all_depth; reflexivity|auto].
-    - split; [apply with_cap_inv; exact I|]. split; [reflexivity|auto].
+    - destruct (flush_all_inv (with_cap B c) U (with_cap_inv B U c I)) as (I' & Hn & Hf).
+      split; [exact I'|]. split; [rewrite flush_all_depth; reflexivity|]. split; [auto|exact Hf].
+    - split; [apply with_ferr_inv, with_cap_inv; exact I|]. split; [reflexivity|]. split; [auto|reflexivity].
   Qed.
 
   (* writing back the value a collection already holds changes no lookup *)
@@ -345,6 +404,11 @@ Section Sim.
     - intros x f0 m0 Hx. rewrite EB in Hx. apply (i_h B U I x f0 m0 Hx).
     - intros f0 Hf0. apply (i_free B U I). intros x mx. rewrite <- EB. apply Hf0.
     - intros f0 e0 H. destruct (i_reg B U I f0 e0 H) as (x & mx & Hin & Hx). exists x, mx. rewrite EB. auto.
+    - apply I.
+    - apply I.
+    - apply I.
+    - apply I.
+    - apply (i_meta B U I).
   Qed.
 
   (* only collection h (file f) changed *)
@@ -358,9 +422,12 @@ Section Sim.
     hinv B' U' f m' ->
     (forall x, In x (reg B) -> In x (reg B')) ->
     (forall e, nlookup f (buf B') = Some e -> In h (reg B')) ->
+    nowrite (dk B') = [] -> nowrite (dk U') = [] -> oerr_of B' = false -> oerr_of U' = false ->
+    (forall f0, f0 <> f -> nlookup f0 (vers (dk B')) = nlookup f0 (vers (dk B))) ->
+    (forall e, nlookup f (buf B') = Some e -> b_meta e = nlookup f (vers (dk B'))) ->
     Inv0 B' U'.
   Proof.
-    intros B U B' U' h f m0 m' I Hm HdU EB EU Hfr Hh Hreg Hregf.
+    intros B U B' U' h f m0 m' I Hm HdU EB EU Hfr Hh Hreg Hregf HnB HnU HoB HoU Hv Hmeta.
     assert (Hfile : forall x f0 m1, nlookup x (mems B') = Some (f0, m1) ->
               (x = h /\ f0 = f /\ m1 = m') \/ (x <> h /\ nlookup x (mems B) = Some (f0, m1) /\ f0 <> f)).
     { intros x f0 m1 Hx. rewrite EB in Hx. destruct (N.eqb x h) eqn:E.
@@ -388,6 +455,12 @@ Section Sim.
         destruct (i_reg B U I f0 e0 H) as (x & mx & Hin & Hx). exists x, mx. split; [apply Hreg; exact Hin|].
         rewrite EB. destruct (N.eqb x h) eqn:E; [|exact Hx].
         apply N.eqb_eq in E. subst x. rewrite Hm in Hx. inversion Hx. congruence.
+    - exact HnB.
+    - exact HnU.
+    - exact HoB.
+    - exact HoU.
+    - intros f0 e0 H. destruct (N.eq_dec f0 f) as [->|Hne]; [apply Hmeta; exact H|].
+      destruct (Hfr f0 Hne) as (F1 & _ & _). rewrite F1 in H. rewrite Hv by exact Hne. apply (i_meta B U I f0 e0 H).
   Qed.
 
   Lemma set_mem_lookup : forall st h f m x,
@@ -428,19 +501,21 @@ Section Sim.
   Qed.
 
   Lemma load_sim : forall B U h f m,
-    Inv B U -> nlookup h (mems B) = Some (f, m) ->
+    Inv B U -> ferr_of B = false -> ferr_of U = false -> nlookup h (mems B) = Some (f, m) ->
     let '(B', mB) := load B h f m in
     let '(U', mU) := load U h f m in
-    mB = mU /\ Inv B' U' /\ nlookup h (mems B') = Some (f, mB) /\ depth B' = depth B /\ is_obj mB.
+    mB = mU /\ Inv B' U' /\ nlookup h (mems B') = Some (f, mB) /\ depth B' = depth B /\ is_obj mB /\
+    ferr_of B' = false /\ ferr_of U' = false.
   Proof.
-    intros B U h f m [I Hd0] Hm.
+    intros B U h f m [I Hd0] HfB HfU Hm.
     pose proof (i_h B U I h f m Hm) as Hh.
     unfold Doc.load. rewrite (i_depthU B U I).
     destruct (depth B) as [|d] eqn:Ed.
     - (* outside any block *)
       specialize (Hd0 eq_refl).
       destruct (hinv_noentry_load B U f m Hh (Hd0 f)) as (Em & Hobj & _ & Hst).
-      split; [symmetry; exact Em|]. rewrite Em. split; [|split; [rewrite set_mem_lookup, N.eqb_refl; reflexivity|split; [simpl; exact Ed|exact Hobj]]].
+      split; [symmetry; exact Em|]. rewrite Em.
+      split; [|split; [rewrite set_mem_lookup, N.eqb_refl; reflexivity|split; [simpl; exact Ed|split; [exact Hobj|split; [exact HfB|exact HfU]]]]].
       split.
       + apply (Inv0_update B U _ _ h f m (merge_opt merge m (nlookup f (files B))) I Hm).
         * apply (i_depthU B U I).
@@ -448,6 +523,12 @@ Section Sim.
         * intro x. apply set_mem_lookup.
         * intros f0 _. simpl. auto.
         * unfold hinv. simpl. rewrite (Hd0 f). split; [exact Hobj|exact Hst].
+        * auto.
+        * intros e He. simpl in He. rewrite (Hd0 f) in He. discriminate.
+        * apply (i_nwB B U I).
+        * apply (i_nwU B U I).
+        * apply (i_oB B U I).
+        * apply (i_oU B U I).
         * auto.
         * intros e He. simpl in He. rewrite (Hd0 f) in He. discriminate.
       + intros _ f0. simpl. apply Hd0.
@@ -460,30 +541,33 @@ Section Sim.
         assert (He2 : nlookup f (buf (register B h)) = Some e).
         { unfold register. destruct (nmem h (reg B)); exact He. }
         rewrite He2.
-        destruct (check_capacity_inv _ U I2) as (I3 & D3 & M3 & _).
+        destruct (check_capacity_inv _ U I2) as (I3 & D3 & M3 & F3). rewrite F3.
         assert (Hm3 : nlookup h (mems (check_capacity (register B h))) = Some (f, m)).
         { rewrite M3. unfold register. destruct (nmem h (reg B)); exact Hm. }
         rewrite Hm3, Hc, merge_same.
         assert (EmU : merge_opt merge m (nlookup f (files U)) = m).
         { destruct Hcd as [[_ [Hu|[Hu _]]]|Hu]; rewrite Hu; simpl; try apply merge_same; reflexivity. }
-        rewrite EmU. split; [reflexivity|]. split; [|split; [rewrite set_mem_lookup, N.eqb_refl; reflexivity|split; [|exact Hobj]]].
+        rewrite EmU. split; [reflexivity|].
+        split; [|split; [rewrite set_mem_lookup, N.eqb_refl; reflexivity|split; [|split; [exact Hobj|split; [exact F3|exact HfU]]]]].
         * split; [apply set_mem_id_inv; assumption|]. simpl. rewrite D3. unfold register. destruct (nmem h (reg B)); simpl; rewrite Ed; discriminate.
         * simpl. rewrite D3. unfold register. destruct (nmem h (reg B)); simpl; exact Ed.
       + (* first access in this block: the entry is created from the file *)
         destruct (hinv_noentry_load B U f m Hh He) as (Em & Hobj & Hv & Hst).
         set (m1 := merge_opt merge m (nlookup f (files B))) in *.
-        set (B1 := with_buf (set_mem B h f m1) (nset f {| b_contents := m1; b_hash := m1 |} (buf B))).
+        set (en := {| b_contents := m1; b_hash := m1; b_meta := nlookup f (vers (dk B)) |}).
+        set (B1 := with_buf (set_mem B h f m1) (nset f en (buf B))).
         set (U1 := set_mem U h f m1).
+        assert (Eb2 : nlookup f (buf (register B1 h)) = Some en).
+        { unfold register. destruct (nmem h (reg B1)); simpl; apply nlookup_nset_same. }
+        assert (Edk : dk (register B1 h) = dk B).
+        { unfold register. destruct (nmem h (reg B1)); reflexivity. }
         assert (I2 : Inv0 (register B1 h) U1).
         { apply (Inv0_update B U _ _ h f m m1 I Hm).
           - apply (i_depthU B U I).
           - intro x. unfold register. destruct (nmem h (reg B1)); apply set_mem_lookup.
           - intro x. apply set_mem_lookup.
           - intros f0 Hne. unfold register. destruct (nmem h (reg B1)); simpl; nsimp; auto.
-          - unfold hinv. split; [exact Hobj|].
-            assert (Eb : nlookup f (buf (register B1 h)) = Some {| b_contents := m1; b_hash := m1 |}).
-            { unfold register. destruct (nmem h (reg B1)); simpl; apply nlookup_nset_same. }
-            rewrite Eb. simpl.
+          - unfold hinv. split; [exact Hobj|]. rewrite Eb2. simpl.
             assert (Ef : nlookup f (files (register B1 h)) = nlookup f (files B)).
             { unfold register. destruct (nmem h (reg B1)); reflexivity. }
             rewrite Ef. split; [reflexivity|].
@@ -494,15 +578,20 @@ Section Sim.
               * simpl in Hs. split; [left; split; [exact Hf|right; exact Hs]|]. left. split; [reflexivity|right; auto].
             + split; [left; split; [exact Hfb|right; exact Hem]|]. left. split; [reflexivity|left; exact Hfu].
           - intros x Hx. apply register_mono. exact Hx.
-          - intros e0 _. apply in_register. }
-        assert (Eb2 : nlookup f (buf (register B1 h)) = Some {| b_contents := m1; b_hash := m1 |}).
-        { unfold register. destruct (nmem h (reg B1)); simpl; apply nlookup_nset_same. }
-        rewrite Eb2. simpl b_contents.
-        destruct (check_capacity_inv _ U1 I2) as (I3 & D3 & M3 & _).
+          - intros e0 _. apply in_register.
+          - rewrite Edk. apply (i_nwB B U I).
+          - apply (i_nwU B U I).
+          - unfold oerr_of. rewrite Edk. apply (i_oB B U I).
+          - apply (i_oU B U I).
+          - intros f0 _. rewrite Edk. reflexivity.
+          - intros e0 He0. rewrite Eb2 in He0. inversion He0. rewrite Edk. reflexivity. }
+        fold en. fold B1. rewrite Eb2. simpl b_contents.
+        destruct (check_capacity_inv _ U1 I2) as (I3 & D3 & M3 & F3). rewrite F3.
         assert (Hm3 : nlookup h (mems (check_capacity (register B1 h))) = Some (f, m1)).
         { rewrite M3. unfold register. destruct (nmem h (reg B1)); unfold B1; simpl; apply nlookup_nset_same. }
         rewrite Hm3, merge_same. rewrite Em.
-        split; [reflexivity|]. split; [|split; [rewrite set_mem_lookup, N.eqb_refl; reflexivity|split; [|exact Hobj]]].
+        split; [reflexivity|].
+        split; [|split; [rewrite set_mem_lookup, N.eqb_refl; reflexivity|split; [|split; [exact Hobj|split; [exact F3|exact HfU]]]]].
         * split.
           -- (* U1 already holds m1 for h: one more identical write *)
              pose proof (set_mem_id_inv _ U1 h f m1 I3 Hm3) as I4.
@@ -515,15 +604,18 @@ Section Sim.
   Qed.
 
   Lemma save_sim : forall B U h f m0 m',
-    Inv B U -> nlookup h (mems B) = Some (f, m0) -> is_obj m' ->
+    Inv B U -> ferr_of B = false -> ferr_of U = false -> nlookup h (mems B) = Some (f, m0) -> is_obj m' ->
     Inv (save B h f m') (save U h f m') /\ nlookup h (mems (save B h f m')) = Some (f, m') /\
-    depth (save B h f m') = depth B.
+    depth (save B h f m') = depth B /\
+    ferr_of (save B h f m') = false /\ oerr_of (save B h f m') = false /\
+    ferr_of (save U h f m') = false /\ oerr_of (save U h f m') = false.
   Proof.
-    intros B U h f m0 m' [I Hd0] Hm Hobj.
+    intros B U h f m0 m' [I Hd0] HfB HfU Hm Hobj.
     pose proof (i_h B U I h f m0 Hm) as Hh.
-    unfold Doc.save. rewrite (i_depthU B U I).
+    unfold Doc.save. rewrite (i_depthU B U I). rewrite (i_nwU B U I). simpl (nmem f []).
     destruct (depth B) as [|d] eqn:Ed.
-    - specialize (Hd0 eq_refl). split; [|split; [simpl; apply nlookup_nset_same|simpl; exact Ed]].
+    - specialize (Hd0 eq_refl). rewrite (i_nwB B U I). simpl (nmem f []).
+      split; [|split; [simpl; apply nlookup_nset_same|split; [simpl; exact Ed|split; [exact HfB|split; [apply (i_oB B U I)|split; [exact HfU|apply (i_oU B U I)]]]]]].
       split.
       + apply (Inv0_update B U _ _ h f m0 m' I Hm).
         * simpl. apply (i_depthU B U I).
@@ -534,19 +626,27 @@ Section Sim.
           split; [apply merge_same|exact Hobj].
         * auto.
         * intros e He. simpl in He. rewrite (Hd0 f) in He. discriminate.
+        * simpl. apply (i_nwB B U I).
+        * simpl. apply (i_nwU B U I).
+        * apply (i_oB B U I).
+        * apply (i_oU B U I).
+        * intros f0 Hne. simpl. apply nlookup_nset_other. auto.
+        * intros e He. simpl in He. rewrite (Hd0 f) in He. discriminate.
       + intros _ f0. simpl. apply Hd0.
     - unfold Doc.save_buffered.
       set (B0 := register (set_mem B h f m') h).
-      set (U' := with_files (set_mem U h f m') (nset f m' (files U))).
+      set (U' := write_file (set_mem U h f m') f m').
       assert (Eb0 : buf B0 = buf B) by (unfold B0, register; destruct (nmem h (reg (set_mem B h f m'))); reflexivity).
       assert (Ef0 : files B0 = files B) by (unfold B0, register; destruct (nmem h (reg (set_mem B h f m'))); reflexivity).
+      assert (Ek0 : dk B0 = dk B) by (unfold B0, register; destruct (nmem h (reg (set_mem B h f m'))); reflexivity).
       assert (Em0 : forall x, nlookup x (mems B0) = if N.eqb x h then Some (f, m') else nlookup x (mems B)).
       { intro x. unfold B0, register. destruct (nmem h (reg (set_mem B h f m'))); apply set_mem_lookup. }
       assert (Ed0 : depth B0 = S d) by (unfold B0, register; destruct (nmem h (reg (set_mem B h f m'))); simpl; exact Ed).
       assert (Hr0 : In h (reg B0)) by apply in_register.
       assert (Hrm : forall x, In x (reg B) -> In x (reg B0)) by (intros x Hx; unfold B0; apply register_mono; exact Hx).
-      rewrite Eb0, Ef0.
+      rewrite Eb0, Ef0, Ek0.
       match goal with |- context [check_capacity ?s] => set (B1 := s) end.
+      assert (Ek1 : dk B1 = dk B) by (unfold B1; destruct (nlookup f (buf B)); simpl; exact Ek0).
       assert (I1 : Inv0 B1 U').
       { apply (Inv0_update B U _ _ h f m0 m' I Hm).
         - simpl. apply (i_depthU B U I).
@@ -560,31 +660,40 @@ Section Sim.
           + split; [reflexivity|]. split; [|right; reflexivity].
             destruct (nlookup f (files B)) as [v|]; [right; reflexivity|left; auto].
         - intros x Hx. unfold B1. destruct (nlookup f (buf B)); simpl; apply Hrm; exact Hx.
-        - intros e _. unfold B1. destruct (nlookup f (buf B)); simpl; exact Hr0. }
-      destruct (check_capacity_inv B1 U' I1) as (I2 & D2 & M2 & _).
+        - intros e _. unfold B1. destruct (nlookup f (buf B)); simpl; exact Hr0.
+        - rewrite Ek1. apply (i_nwB B U I).
+        - simpl. apply (i_nwU B U I).
+        - unfold oerr_of. rewrite Ek1. apply (i_oB B U I).
+        - apply (i_oU B U I).
+        - intros f0 _. rewrite Ek1. reflexivity.
+        - intros e0 He0. rewrite Ek1. unfold B1 in He0.
+          destruct (nlookup f (buf B)) as [e|] eqn:He; simpl in He0; rewrite ?Eb0 in He0; rewrite nlookup_nset_same in He0;
+            inversion He0; simpl; [apply (i_meta B U I f e He)|reflexivity]. }
+      destruct (check_capacity_inv B1 U' I1) as (I2 & D2 & M2 & F2).
       assert (D1 : depth B1 = S d) by (unfold B1; destruct (nlookup f (buf B)); simpl; exact Ed0).
       split; [split; [exact I2|rewrite D2, D1; discriminate]|].
-      split; [|rewrite D2, D1; reflexivity].
+      split; [|split; [rewrite D2, D1; reflexivity|split; [exact F2|split; [apply (i_oB _ _ I2)|split; [exact HfU|apply (i_oU B U I)]]]]].
       rewrite M2. unfold B1. destruct (nlookup f (buf B)); simpl; rewrite Em0, N.eqb_refl; reflexivity.
   Qed.
 
   (* ---- one document operation ---- *)
   Lemma walk_sim : forall p B U h f m pre,
-    Inv B U -> nlookup h (mems B) = Some (f, m) ->
+    Inv B U -> ferr_of B = false -> ferr_of U = false -> nlookup h (mems B) = Some (f, m) ->
     let '(B', mB, eB) := walk frepr merge B h f m pre p in
     let '(U', mU, eU) := walk frepr merge U h f m pre p in
-    mB = mU /\ eB = eU /\ Inv B' U' /\ nlookup h (mems B') = Some (f, mB) /\ depth B' = depth B /\ is_obj mB.
+    mB = mU /\ eB = eU /\ Inv B' U' /\ nlookup h (mems B') = Some (f, mB) /\ depth B' = depth B /\ is_obj mB /\
+    ferr_of B' = false /\ ferr_of U' = false.
   Proof.
-    induction p as [|e p IH]; intros B U h f m pre I Hm; simpl.
+    induction p as [|e p IH]; intros B U h f m pre I HfB HfU Hm; simpl.
     - csplit; auto. destruct I as [I _]. destruct (i_h B U I h f m Hm) as [Ho _]. exact Ho.
-    - pose proof (load_sim B U h f m I Hm) as Hl.
+    - pose proof (load_sim B U h f m I HfB HfU Hm) as Hl.
       destruct (load B h f m) as [B1 m1]. destruct (load U h f m) as [U1 m1'].
-      destruct Hl as (-> & I1 & Hm1 & D1 & Ho1).
+      destruct Hl as (-> & I1 & Hm1 & D1 & Ho1 & F1 & F1'). rewrite F1, F1'.
       destruct (get_at (pre ++ [e]) m1').
-      + specialize (IH B1 U1 h f m1' (pre ++ [e]) I1 Hm1).
+      + specialize (IH B1 U1 h f m1' (pre ++ [e]) I1 F1 F1' Hm1).
         destruct (walk frepr merge B1 h f m1' (pre ++ [e]) p) as [[B2 m2] e2].
         destruct (walk frepr merge U1 h f m1' (pre ++ [e]) p) as [[U2 m2'] e2'].
-        destruct IH as (A & B0 & C & D & E & F). csplit; auto. congruence.
+        destruct IH as (A & B0 & C & D & E & F & G & H). csplit; auto. congruence.
       + csplit; auto.
   Qed.
 
@@ -605,41 +714,55 @@ Section Sim.
     destruct (alookup k d); eexists; reflexivity.
   Qed.
 
+  Lemma flags_inv : forall B U, Inv B U ->
+    Inv (with_oerr (with_ferr B false) false) (with_oerr (with_ferr U false) false).
+  Proof.
+    intros B U [I Hd]. split; [|exact Hd].
+    apply with_oerr_false_inv. apply with_ferr_inv. apply with_ferr_inv_U. exact I.
+  Qed.
+
   Lemma cop_sim : forall B U h p o,
     Inv B U ->
     let '(B', rB) := cop B h p o in
     let '(U', rU) := cop U h p o in
     rB = rU /\ Inv B' U' /\ depth B' = depth B.
   Proof.
-    intros B U h p o I. unfold Doc.cop.
+    intros B00 U00 h p o I00. unfold Doc.cop. cbv zeta.
+    pose proof (flags_inv B00 U00 I00) as I.
+    set (B := with_oerr (with_ferr B00 false) false) in *. set (U := with_oerr (with_ferr U00 false) false) in *.
+    assert (HfB : ferr_of B = false) by reflexivity. assert (HfU : ferr_of U = false) by reflexivity.
+    change (depth B00) with (depth B).
     assert (Em : nlookup h (mems B) = nlookup h (mems U)) by (destruct I as [I _]; apply (i_mems B U I)).
     rewrite <- Em. destruct (nlookup h (mems B)) as [[f m0]|] eqn:Hm; [|auto].
-    pose proof (walk_sim p B U h f m0 [] I Hm) as Hw.
+    pose proof (walk_sim p B U h f m0 [] I HfB HfU Hm) as Hw.
     destruct (walk frepr merge B h f m0 [] p) as [[B0 mB] eB].
     destruct (walk frepr merge U h f m0 [] p) as [[U0 mU] eU].
-    destruct Hw as (-> & -> & I0 & Hm0 & D0 & Ho0).
+    destruct Hw as (-> & -> & I0 & Hm0 & D0 & Ho0 & F0 & F0').
     destruct eU as [e|]; [auto|].
     assert (Hl : let '(B1, m1) := (if op_loads o then load B0 h f mU else (B0, mU)) in
                  let '(U1, m1') := (if op_loads o then load U0 h f mU else (U0, mU)) in
-                 m1 = m1' /\ Inv B1 U1 /\ nlookup h (mems B1) = Some (f, m1) /\ depth B1 = depth B /\ is_obj m1).
+                 m1 = m1' /\ Inv B1 U1 /\ nlookup h (mems B1) = Some (f, m1) /\ depth B1 = depth B /\ is_obj m1 /\
+                 ferr_of B1 = false /\ ferr_of U1 = false).
     { destruct (op_loads o).
-      - pose proof (load_sim B0 U0 h f mU I0 Hm0) as Hl.
+      - pose proof (load_sim B0 U0 h f mU I0 F0 F0' Hm0) as Hl.
         destruct (load B0 h f mU) as [B1 m1]. destruct (load U0 h f mU) as [U1 m1'].
-        destruct Hl as (A & B2 & C & D & E). csplit; auto. congruence.
+        destruct Hl as (A & B2 & C & D & E & F & G). csplit; auto. congruence.
       - csplit; auto. }
     destruct (if op_loads o then load B0 h f mU else (B0, mU)) as [B1 m1].
     destruct (if op_loads o then load U0 h f mU else (U0, mU)) as [U1 m1'].
-    destruct Hl as (<- & I1 & Hm1 & D1 & Ho1).
+    destruct Hl as (<- & I1 & Hm1 & D1 & Ho1 & F1 & F1'). rewrite F1, F1'.
     destruct (get_at p m1) as [t|e] eqn:Eg; [|auto].
     destruct (is_read o); [auto|].
     destruct (sync_apply merge o t) as [[t' r]|e] eqn:Ea.
     - assert (Hobj' : is_obj (set_at p t' m1)).
       { apply set_at_obj; [exact Ho1|]. intros ->. simpl in Eg. inversion Eg; subst t.
         eapply apply_obj; eauto. }
-      destruct (save_sim B1 U1 h f m1 _ I1 Hm1 Hobj') as (I2 & _ & D2).
+      destruct (save_sim B1 U1 h f m1 _ I1 F1 F1' Hm1 Hobj') as (I2 & _ & D2 & A1 & A2 & A3 & A4).
+      unfold raised. rewrite A1, A2, A3, A4.
       split; [reflexivity|]. split; [exact I2|congruence].
     - destruct o; try (split; [reflexivity|split; [exact I1|exact D1]]);
-        (destruct (save_sim B1 U1 h f m1 m1 I1 Hm1 Ho1) as (I2 & _ & D2);
+        (destruct (save_sim B1 U1 h f m1 m1 I1 F1 F1' Hm1 Ho1) as (I2 & _ & D2 & A1 & A2 & A3 & A4);
+         unfold raised; rewrite A1, A2, A3, A4;
          split; [reflexivity|]; split; [exact I2|congruence]).
   Qed.
 
@@ -659,26 +782,26 @@ Section Sim.
     - (* enter *)
       destruct I as [I Hd0]. destruct c as [n|]; simpl.
       + destruct (set_capacity_inv (with_caps (with_depth B (S (depth B))) (Some (cap B) :: caps B)) U n
-                    (with_caps_inv _ U _ (with_depth_inv B U _ I))) as (I' & D' & _).
+                    (with_caps_inv _ U _ (with_depth_inv B U _ I))) as (I' & D' & _ & _).
         split; [exact I'|]. rewrite D'. simpl. discriminate.
       + split; [apply with_caps_inv, with_depth_inv; exact I|]. simpl. discriminate.
     - (* exit *)
       destruct I as [I Hd0]. destruct (depth B) as [|d] eqn:Ed; simpl; [split; [exact I|rewrite Ed; exact Hd0]|].
       set (B1 := with_depth B d).
       assert (I1 : Inv0 B1 U) by (apply with_depth_inv; exact I).
-      set (B2 := match d with O => flush_all B1 | S _ => B1 end).
-      assert (I2 : Inv0 B2 U /\ depth B2 = d /\ (d = 0%nat -> forall f, nlookup f (buf B2) = None)).
+      set (B2 := match d with O => flush_all B1 | S _ => with_ferr B1 false end).
+      assert (I2 : Inv0 B2 U /\ depth B2 = d /\ (d = 0%nat -> forall f, nlookup f (buf B2) = None) /\ ferr_of B2 = false).
       { unfold B2. destruct d.
-        - destruct (flush_all_inv B1 U I1) as [I2 Hn2]. split; [exact I2|]. split; [rewrite flush_all_depth; reflexivity|auto].
-        - split; [exact I1|]. split; [reflexivity|discriminate]. }
-      destruct I2 as (I2 & D2 & N2).
+        - destruct (flush_all_inv B1 U I1) as (I2 & Hn2 & F2). split; [exact I2|]. split; [rewrite flush_all_depth; reflexivity|auto].
+        - split; [apply with_ferr_inv; exact I1|]. split; [reflexivity|]. split; [discriminate|reflexivity]. }
+      destruct I2 as (I2 & D2 & N2 & F2). rewrite F2.
       destruct (caps B2) as [|[c|] r] eqn:Ec.
       + split; [exact I2|]. rewrite D2. exact N2.
-      + destruct (set_capacity_inv (with_caps B2 r) U c (with_caps_inv B2 U r I2)) as (I3 & D3 & N3).
+      + destruct (set_capacity_inv (with_caps B2 r) U c (with_caps_inv B2 U r I2)) as (I3 & D3 & N3 & _).
         split; [exact I3|]. rewrite D3. simpl. rewrite D2. intro E. apply N3. simpl. apply N2. exact E.
       + split; [apply with_caps_inv; exact I2|]. simpl. rewrite D2. exact N2.
     - (* set_buffer_capacity *)
-      destruct I as [I Hd0]. destruct (set_capacity_inv B U c I) as (I' & D' & N').
+      destruct I as [I Hd0]. destruct (set_capacity_inv B U c I) as (I' & D' & N' & _).
       split; [exact I'|]. rewrite D'. intro E. apply N'. apply Hd0. exact E.
   Qed.
 
@@ -710,15 +833,16 @@ Section Sim.
 
   (* ---- initial states ---- *)
   Definition good_init (st : cstate) : Prop :=
-    depth st = 0%nat /\ buf st = [] /\
+    depth st = 0%nat /\ buf st = [] /\ nowrite (dk st) = [] /\ oerr_of st = false /\
     (forall h h' f m m', nlookup h (mems st) = Some (f, m) -> nlookup h' (mems st) = Some (f, m') -> h = h') /\
     (forall h f m, nlookup h (mems st) = Some (f, m) -> is_obj m /\ insync m (nlookup f (files st))).
 
   Lemma good_init_inv : forall st, good_init st -> Inv st st.
   Proof.
-    intros st (Hd & Hb & Hi & Hs). split; [|intros _ f; rewrite Hb; reflexivity].
+    intros st (Hd & Hb & Hnw & Hoe & Hi & Hs). split; [|intros _ f; rewrite Hb; reflexivity].
     constructor; auto.
     - intros h f m Hm. destruct (Hs h f m Hm) as [Ho Hy]. unfold hinv. rewrite Hb. simpl. split; [exact Ho|left; auto].
+    - intros f e H. rewrite Hb in H. discriminate.
     - intros f e H. rewrite Hb in H. discriminate.
   Qed.
 
@@ -821,11 +945,11 @@ Section Follow.
     assert (E : N.eqb f f' = false) by (apply N.eqb_neq; exact Hne). rewrite E, Hd, Hd'. simpl.
     split; [reflexivity|]. split; [apply nlookup_nset_same|].
     split.
-    { destruct (nlookup f (files (core js))) as [v|] eqn:Ev; simpl.
+    { unfold move_key. destruct (nlookup f (files (core js))) as [v|] eqn:Ev; simpl.
       - apply nlookup_nset_same.
       - apply nlookup_nremove_same. }
     split.
-    { destruct (nlookup f (files (core js))) as [v|] eqn:Ev; simpl.
+    { unfold move_key. destruct (nlookup f (files (core js))) as [v|] eqn:Ev; simpl.
       - rewrite nlookup_nset_other by auto. apply nlookup_nremove_same.
       - rewrite nlookup_nremove_other by auto. apply nlookup_nremove_same. }
     unfold resolve_doc. simpl. rewrite nlookup_nset_same. eexists. eexists. split; [reflexivity|]. simpl.
@@ -835,13 +959,13 @@ Section Follow.
 
   (* after remove() the next document access re-creates the job and starts from an empty document *)
   Lemma follow_remove : forall js j f d,
-    nlookup j (jobs js) = Some (f, d) -> nmem f (dirs js) = true ->
+    nlookup j (jobs js) = Some (f, d) -> nmem f (dirs js) = true -> depth (core js) = 0%nat ->
     let js1 := fst (jstep js (JRemove j)) in
     nlookup j (jobs js1) = Some (f, None) /\ nlookup f (files (core js1)) = None /\ nmem f (dirs js1) = false /\
     exists js2 h, resolve_doc frepr merge js1 j = Some (js2, h) /\
                   nlookup h (mems (core js2)) = Some (f, empty_obj) /\ h = nexth js.
   Proof.
-    intros js j f d Hj Hd. cbv zeta. unfold Doc.jstep. rewrite Hj, Hd. simpl.
+    intros js j f d Hj Hd H0. cbv zeta. unfold Doc.jstep. rewrite Hj, Hd. simpl. rewrite H0. simpl.
     split; [apply nlookup_nset_same|]. split; [apply nlookup_nremove_same|].
     split.
     { unfold del_dir, nmem. apply not_true_is_false. intro H. apply existsb_exists in H.
@@ -931,48 +1055,50 @@ Section Unbuf.
   Notation save := (save frepr merge).
   Notation cop := (cop frepr merge).
 
-  (* outside blocks, collection h holds exactly what its file holds (an absent file = the empty document) *)
+  (* outside blocks, collection h holds exactly what its file holds (an absent file = the empty document),
+     and the file's directory exists *)
   Definition uptodate (st : cstate) (h f : N) (d : json) : Prop :=
-    depth st = 0%nat /\ nlookup h (mems st) = Some (f, d) /\ fcontent st f = d.
+    depth st = 0%nat /\ nlookup h (mems st) = Some (f, d) /\ fcontent st f = d /\ nmem f (nowrite (dk st)) = false.
 
   (* st' differs from st at most in the memory of h *)
   Definition same_but_mem (st st' : cstate) (h : N) : Prop :=
-    files st' = files st /\ depth st' = depth st /\ forall x, x <> h -> nlookup x (mems st') = nlookup x (mems st).
+    files st' = files st /\ depth st' = depth st /\ dk st' = dk st /\ forall x, x <> h -> nlookup x (mems st') = nlookup x (mems st).
 
   Lemma uload : forall st h f d, uptodate st h f d ->
     load st h f d = (set_mem st h f d, d).
   Proof.
-    intros st h f d (Hd & Hm & Hf). unfold Doc.load. rewrite Hd. unfold fcontent in Hf.
+    intros st h f d (Hd & Hm & Hf & _). unfold Doc.load. rewrite Hd. unfold fcontent in Hf.
     destruct (nlookup f (files st)) as [v|]; simpl; [subst v; rewrite merge_same|]; reflexivity.
   Qed.
 
   Lemma uptodate_set_mem : forall st h f d, uptodate st h f d ->
     uptodate (set_mem st h f d) h f d /\ same_but_mem st (set_mem st h f d) h.
   Proof.
-    intros st h f d (Hd & Hm & Hf). split.
-    - split; [exact Hd|]. split; [simpl; apply nlookup_nset_same|exact Hf].
-    - split; [reflexivity|]. split; [reflexivity|]. intros x Hx. simpl. apply nlookup_nset_other. auto.
+    intros st h f d (Hd & Hm & Hf & Hn). split.
+    - split; [exact Hd|]. split; [simpl; apply nlookup_nset_same|split; [exact Hf|exact Hn]].
+    - split; [reflexivity|]. split; [reflexivity|]. split; [reflexivity|]. intros x Hx. simpl. apply nlookup_nset_other. auto.
   Qed.
 
   Lemma same_but_mem_trans : forall a b c h, same_but_mem a b h -> same_but_mem b c h -> same_but_mem a c h.
   Proof.
-    intros a b c h (F1 & D1 & M1) (F2 & D2 & M2). split; [congruence|]. split; [congruence|].
+    intros a b c h (F1 & D1 & K1 & M1) (F2 & D2 & K2 & M2). split; [congruence|]. split; [congruence|]. split; [congruence|].
     intros x Hx. rewrite M2, M1; auto.
   Qed.
 
   Lemma uwalk : forall p st h f d pre v0,
-    uptodate st h f d -> get_at pre d = Ok v0 ->
+    uptodate st h f d -> ferr_of st = false -> get_at pre d = Ok v0 ->
     let '(st', m', e) := walk frepr merge st h f d pre p in
     m' = d /\ uptodate st' h f d /\ same_but_mem st st' h /\
     e = match get_at (pre ++ p) d with Ok _ => None | Err x => Some x end.
   Proof.
-    induction p as [|el p IH]; intros st h f d pre v0 Hu Hp; simpl.
+    induction p as [|el p IH]; intros st h f d pre v0 Hu Hq Hp; simpl.
     - rewrite app_nil_r, Hp. split; [reflexivity|]. split; [exact Hu|]. split; [|reflexivity].
-      split; [reflexivity|]. split; [reflexivity|]. auto.
+      split; [reflexivity|]. split; [reflexivity|]. split; [reflexivity|]. auto.
     - rewrite (uload st h f d Hu). destruct (uptodate_set_mem st h f d Hu) as [Hu1 Hs1].
+      assert (Hq1 : ferr_of (set_mem st h f d) = false) by exact Hq. rewrite Hq1.
       replace (pre ++ el :: p) with ((pre ++ [el]) ++ p) by (rewrite <- app_assoc; reflexivity).
       destruct (get_at (pre ++ [el]) d) as [v1|x] eqn:Eg.
-      + specialize (IH (set_mem st h f d) h f d (pre ++ [el]) v1 Hu1 Eg).
+      + specialize (IH (set_mem st h f d) h f d (pre ++ [el]) v1 Hu1 Hq1 Eg).
         destruct (walk frepr merge (set_mem st h f d) h f d (pre ++ [el]) p) as [[st' m'] e].
         destruct IH as (A & B & C & D). split; [exact A|]. split; [exact B|]. split; [|exact D].
         eapply same_but_mem_trans; eauto.
@@ -982,45 +1108,57 @@ Section Unbuf.
   Lemma usave : forall st h f d d', uptodate st h f d ->
     uptodate (save st h f d') h f d' /\
     (forall f0, f0 <> f -> nlookup f0 (files (save st h f d')) = nlookup f0 (files st)) /\
-    (forall x, x <> h -> nlookup x (mems (save st h f d')) = nlookup x (mems st)).
+    (forall x, x <> h -> nlookup x (mems (save st h f d')) = nlookup x (mems st)) /\
+    ferr_of (save st h f d') = ferr_of st /\ oerr_of (save st h f d') = oerr_of st.
   Proof.
-    intros st h f d d' (Hd & Hm & Hf). unfold Doc.save. rewrite Hd. simpl. split; [|split].
-    - split; [exact Hd|]. split; [simpl; apply nlookup_nset_same|]. unfold fcontent. simpl. rewrite nlookup_nset_same. reflexivity.
+    intros st h f d d' (Hd & Hm & Hf & Hn). unfold Doc.save. rewrite Hd, Hn. simpl. split; [|split; [|split; [|split; reflexivity]]].
+    - split; [exact Hd|]. split; [simpl; apply nlookup_nset_same|]. split; [|exact Hn].
+      unfold fcontent. simpl. rewrite nlookup_nset_same. reflexivity.
     - intros f0 Hne. apply nlookup_nset_other. auto.
     - intros x Hx. apply nlookup_nset_other. auto.
   Qed.
 
-  Theorem ucop_spec : forall st h f d p o,
-    uptodate st h f d ->
-    let '(st', r) := cop st h p o in
+  Theorem ucop_spec : forall st00 h f d p o,
+    uptodate st00 h f d ->
+    let '(st', r) := cop st00 h p o in
     let '(d', r') := doc_apply merge p o d in
     r = r' /\ uptodate st' h f (if is_read o then d else d') /\
-    (forall f0, f0 <> f -> nlookup f0 (files st') = nlookup f0 (files st)) /\
-    (forall x, x <> h -> nlookup x (mems st') = nlookup x (mems st)).
+    (forall f0, f0 <> f -> nlookup f0 (files st') = nlookup f0 (files st00)) /\
+    (forall x, x <> h -> nlookup x (mems st') = nlookup x (mems st00)).
   Proof.
-    intros st h f d p o Hu. unfold Doc.cop. destruct Hu as (Hd & Hm & Hf). rewrite Hm.
-    assert (Hu : uptodate st h f d) by (split; [exact Hd|split; [exact Hm|exact Hf]]).
-    pose proof (uwalk p st h f d [] d Hu eq_refl) as Hw. simpl app in Hw.
+    intros st00 h f d p o Hu00. unfold Doc.cop. cbv zeta.
+    set (st := with_oerr (with_ferr st00 false) false).
+    assert (Hu : uptodate st h f d) by exact Hu00.
+    assert (Hq : ferr_of st = false) by reflexivity. assert (Hq' : oerr_of st = false) by reflexivity.
+    change (files st00) with (files st). change (mems st00) with (mems st).
+    destruct Hu as (Hd & Hm & Hf & Hn). rewrite Hm.
+    assert (Hu : uptodate st h f d) by (split; [exact Hd|split; [exact Hm|split; [exact Hf|exact Hn]]]).
+    pose proof (uwalk p st h f d [] d Hu Hq eq_refl) as Hw. simpl app in Hw.
     destruct (walk frepr merge st h f d [] p) as [[st0 m0] e0].
-    destruct Hw as (-> & Hu0 & (F0 & D0 & M0) & ->).
+    destruct Hw as (-> & Hu0 & (F0 & D0 & K0 & M0) & ->).
     unfold doc_apply.
     destruct (get_at p d) as [t|x] eqn:Eg.
     2:{ split; [reflexivity|]. split; [destruct (is_read o); exact Hu0|]. split; [intros; rewrite F0; reflexivity|exact M0]. }
     assert (Hl : exists st1, (if op_loads o then load st0 h f d else (st0, d)) = (st1, d) /\ uptodate st1 h f d /\
-                  files st1 = files st /\ (forall x, x <> h -> nlookup x (mems st1) = nlookup x (mems st))).
+                  files st1 = files st /\ dk st1 = dk st /\ (forall x, x <> h -> nlookup x (mems st1) = nlookup x (mems st))).
     { destruct (op_loads o).
-      - rewrite (uload st0 h f d Hu0). destruct (uptodate_set_mem st0 h f d Hu0) as [Hu1 (F1 & _ & M1)].
-        eexists. split; [reflexivity|]. split; [exact Hu1|]. split; [congruence|]. intros x Hx. rewrite M1, M0; auto.
+      - rewrite (uload st0 h f d Hu0). destruct (uptodate_set_mem st0 h f d Hu0) as [Hu1 (F1 & _ & K1 & M1)].
+        eexists. split; [reflexivity|]. split; [exact Hu1|]. split; [congruence|]. split; [congruence|]. intros x Hx. rewrite M1, M0; auto.
       - exists st0. auto. }
-    destruct Hl as (st1 & -> & Hu1 & F1 & M1). rewrite Eg.
+    destruct Hl as (st1 & -> & Hu1 & F1 & K1 & M1).
+    assert (Hq1 : ferr_of st1 = false) by (unfold ferr_of; rewrite K1; exact Hq).
+    assert (Hq1' : oerr_of st1 = false) by (unfold oerr_of; rewrite K1; exact Hq').
+    rewrite Hq1, Eg.
     destruct (is_read o) eqn:Er.
     - destruct o; try discriminate. simpl. split; [reflexivity|]. split; [exact Hu1|]. split; [intros; rewrite F1; reflexivity|exact M1].
     - unfold sync_apply. destruct (apply_with merge o t) as [[t' r]|x] eqn:Ea.
-      + destruct (usave st1 h f d (set_at p t' d) Hu1) as (A & B & C).
+      + destruct (usave st1 h f d (set_at p t' d) Hu1) as (A & B & C & D & E).
+        unfold raised. rewrite D, E, Hq1, Hq1'.
         split; [reflexivity|]. split; [exact A|]. split; [intros f0 H0; rewrite B, F1; auto|intros x Hx; rewrite C, M1; auto].
-      + destruct (usave st1 h f d d Hu1) as (A & B & C).
+      + destruct (usave st1 h f d d Hu1) as (A & B & C & D & E).
         destruct o; try (split; [reflexivity|]; split; [exact Hu1|]; split; [intros; rewrite F1; reflexivity|exact M1]);
-          (split; [reflexivity|]; split; [exact A|]; split; [intros f0 H0; rewrite B, F1; auto|intros x0 Hx; rewrite C, M1; auto]).
+          (unfold raised; rewrite D, E, Hq1, Hq1';
+           split; [reflexivity|]; split; [exact A|]; split; [intros f0 H0; rewrite B, F1; auto|intros x0 Hx; rewrite C, M1; auto]).
   Qed.
 
   (* operations other than update()/reset() are exactly the plain dict/list operations *)
@@ -1032,3 +1170,28 @@ Section Unbuf.
     rewrite E. reflexivity.
   Qed.
 End Unbuf.
+
+(* ================= remove() inside a buffered block ================= *)
+(* the document file existed, was buffered in this block, and the job is removed and used again in the block:
+   the exit raises BufferedError and what was buffered for the re-created job is dropped (known finding 3) *)
+Definition prog_remove_in_block : list jitem :=
+  [JOpen 0 1; JOp 0 [] (OSet kc (JInt 1)); JEnter None; JOp 0 [] (OSet kx (JInt 2)); JRemove 0;
+   JOp 0 [] OGet; JOp 0 [] (OSet kx (JInt 3)); JExit].
+
+Lemma remove_in_block_refuted_w :
+  let obs := jrun fr0 merge (init_js 33554432) prog_remove_in_block in
+  map o_ret (skipn 5 obs) = [Ok (JObj []); Ok JNull; Err ERuntimeError] /\
+  o_files (last obs (model_obs (init_js 0) (Ok JNull))) = [].
+Proof. vm_compute. split; reflexivity. Qed.
+
+(* ... whereas a job whose document was not on disk before the block starts afresh and ends with exactly the
+   files of the unbuffered run (the seeded demo) *)
+Definition prog_remove_fresh : list jitem :=
+  [JOpen 0 1; JInit 0; JEnter None; JOp 0 [] (OSet kc (JInt 1)); JRemove 0; JInit 0; JOp 0 [] OGet;
+   JOp 0 [] (OSetDefault kx (JBool true)); JExit].
+
+Lemma remove_in_block_fresh_w :
+  let obs := jrun fr0 merge (init_js 33554432) prog_remove_fresh in
+  map o_ret (skipn 6 obs) = [Ok (JObj []); Ok (JBool true); Ok JNull] /\
+  o_files (last obs (model_obs (init_js 0) (Ok JNull))) = [(1, JObj [(kx, JBool true)])].
+Proof. vm_compute. split; reflexivity. Qed.
